@@ -55,7 +55,14 @@ func (f *OrefaFile) Chdir() error {
 		return &fs.PathError{Op: op, Path: f.name, Err: err}
 	}
 
-	_ = f.vfs.SetCurDir(f.name)
+	// the name used to open the directory may be relative to another current directory.
+	curDir := f.absPath
+	if f.vfs.isRoot(curDir) {
+		// a root directory is indexed without its path separator.
+		curDir += string(f.vfs.PathSeparator())
+	}
+
+	_ = f.vfs.SetCurDir(curDir)
 
 	return nil
 }
